@@ -382,6 +382,23 @@ def install_top(reg, src):
             ok, vs = fr.lookup("variables")
             if ok and isinstance(vs, SSeq):
                 return index_map_of_varlist(ip, vs)
+        if txt.replace(" ", "") == "{v.name:float(result.x[i])fori,vinenumerate(variables)}":
+            # values dict of solve_scipy: keys = names of the variable list, value at name V_k is x[k]
+            from pyvc.values import SDict
+            ok, vs = fr.lookup("variables")
+            ok2, res = fr.lookup("result")
+            x = ip.getattr(res, "x")
+            NS = names_of_varlist(ip, vs)
+            vals = sym.fresh("values_map", z3.ArraySort(sym.Name, sym.R))
+            FNm = sym.fn("F_name", sym.Ref, sym.Name)
+            n = ip.models.len_term(vs.n)
+            from .seqtheory import seqs, _once
+
+            def pw(k):
+                if _once(ip, f"valuesmap:{vals}:{k}"):
+                    ip.path.assume(z3.Implies(z3.And(k >= 0, k < n), z3.Select(vals, FNm(vs.get(k).ref)) == z3.Select(x.arr, k)))
+            seqs(ip).pointwise.append(pw)
+            return SDict(NS, vals)
         raise Unsupported(f"dict comprehension {txt[:60]}")
     reg.dict_comprehension_hook = dict_hook
 
